@@ -77,6 +77,12 @@ def run(ck):
     given = sample_programs(ck, 120 if q else 1000)
     run_traces(ck, "gated", "ParTrace_parallel.cfg", dict(engine="parallel", procs_cycle=True, gated=True, policy="random",
                                                           given=given, programs=15 if q else 150, max_events=30))
+    # 3b. a controller holds the engine paused and schedules a primary event at the current instant (what monitoring2 does when it
+    #     ticks a component of a paused run): the decision which round runs next must be taken after the pause, not before it
+    run_traces(ck, "gated-sched-in-pause", "ParTrace_parallel.cfg", dict(engine="parallel", procs_cycle=True, gated=True, policy="random", pauses=3, sched_in_pause=True,
+                                                                        given=given[:40] if q else given[:400], programs=10 if q else 100, max_events=30))
+    run_traces(ck, "free-sched-in-pause", "ParTrace_parallel.cfg", dict(engine="parallel", procs_cycle=True, gated=False, spin=30, pauses=4, sched_in_pause=True,
+                                                                       programs=30 if q else 300, max_events=150))
     # 4. free-running schedules
     run_traces(ck, "free", "ParTrace_parallel.cfg", dict(engine="parallel", procs_cycle=True, gated=False, spin=20,
                                                          programs=60 if q else 800, max_events=120))
